@@ -28,7 +28,9 @@
              'carry): freshness of returned values (probe, mutate, reconvert), copy handed to a mutating '
              'javascript record after record, interleaved XML readers vs solo runs, good,bad,good document '
              'sequences with the Read/Release protocol (node pool - C12), records with 12k-26k leaves, bytes '
-             'of Transform.Read valid JSON',
+             'of Transform.Read valid JSON and unchanged after later Reads, JSON/XML documents given as '
+             'iso-8859-1 / windows-1252 bytes through parser_settings.encoding vs the same document '
+             'converted with the standard code page',
              'the partially built idr.Node tree is modelled as the stack of open nodes (append-only '
              'construction; justified by the C12 refinement to the abstract tree)'],
  'assumptions': ['jwf (json_roundtrip / copy_roundtrip only): object keys pairwise distinct at every level; '
